@@ -472,6 +472,14 @@ func init() {
 				ops = append(ops, Op{K: "C"})
 				cs = append(cs, Case{Prop: "C20", Cfg: &cfg, Ops: ops, Note: fam, Kind: "expand"})
 			}
+			for _, n := range []int{65536, 131072, 196608, 262144} {
+				for k := 0; k < tierN(tier, 3, 12); k++ {
+					cfg := WCfg{Pkg: "flate", Level: r.Pick([]int{-2, -2, 1, 2}), Win4K: r.Bool()}
+					data := Payload(r, "dominant", n)
+					ops := append(SplitOps(r, data, r.Intn(5), 0), Op{K: "C"})
+					cs = append(cs, Case{Prop: "C20", Cfg: &cfg, Ops: ops, Note: "dominant", Kind: "expand"})
+				}
+			}
 			np := tierN(tier, 1, 4)
 			for p := 1; p <= 64; p++ {
 				for k := 0; k < np; k++ {
